@@ -48,6 +48,7 @@ func runPO(ld *Loaded, r *sym.Run, st *sym.State, j Job, opt Options, scen int) 
 	// Passes: start with the locations touched by atomic/channel/mutex operations as shared;
 	// after each pass, plain locations written by one thread and accessed by another become
 	// shared too; repeat until neither the shared set nor the value classes change.
+	converged := false
 	for it := 0; it < 12; it++ {
 		po.Reset(roots)
 		po.Explore()
@@ -66,8 +67,12 @@ func runPO(ld *Loaded, r *sym.Run, st *sym.State, j Job, opt Options, scen int) 
 			fmt.Fprintf(os.Stderr, "    pass %d: shared=%d classes=%s rerun=%v\n", it, len(po.Shared), po.ClassSummary(), po.Rerun())
 		}
 		if !grew && !po.Rerun() {
+			converged = true
 			break
 		}
+	}
+	if !converged {
+		po.Unsupp = append(po.Unsupp, "shared-set / value-set passes did not reach a fixpoint in 12 rounds")
 	}
 	shared := po.Shared
 	out.ExploreS = time.Since(t0).Seconds()
